@@ -55,8 +55,15 @@ static bool elem_is(const void *p, unsigned char b0, size_t siz)
     for (size_t j = 0; j < siz; ++j) { if (((const unsigned char *)p)[j] != ebyte(b0, j)) { return false; } }
     return true;
 }
+// the key handed to push_sort is documented as "the key on the right", the object handed to search goes to the left (bsearch):
+// callers may rely on it with a key of another layout than the elements.  The key is recognised by its address.
+static const void *g_key_ptr;
+static int g_key_side; // 0: not checked, 1: the key must be the left argument, 2: the right one
+static bool g_key_side_bad;
 static int cmp_key(void const *l, void const *r)
 {
+    if (g_key_side == 1 && l != g_key_ptr) { g_key_side_bad = true; }
+    if (g_key_side == 2 && r != g_key_ptr) { g_key_side_bad = true; }
     int a = *(unsigned char const *)l >> 4, b = *(unsigned char const *)r >> 4;
     // any negative / zero / positive value is a valid answer: magnitudes other than one catch code that uses the result as +-1
     return a > b ? 3 : a < b ? -5 : 0;
@@ -66,6 +73,14 @@ static size_t g_siz = 1;
 static void log_dtor(void *p) { dtor_log.push_back(*(unsigned char *)p); }
 static int copy_elem(void *dst, void const *src)
 {
+    memcpy(dst, src, g_siz);
+    return 0;
+}
+// a copy callback that refuses its g_copy_fail_at-th call (nothing written, failure returned) and copies otherwise
+static int g_copy_calls, g_copy_fail_at;
+static int copy_elem_failing(void *dst, void const *src)
+{
+    if (g_copy_calls++ == g_copy_fail_at) { return A_FAILURE; }
     memcpy(dst, src, g_siz);
     return 0;
 }
@@ -261,7 +276,7 @@ struct Harness
         case OP_PUSH_BACK: case OP_PUSH_FORE: case OP_PUSH_SORT: case OP_SEARCH: return s + "(key=" + std::to_string(o.a) + ")";
         case OP_INSERT: return s + "(idx=" + idx_str(o.a) + ",key=" + std::to_string(o.b) + ")";
         case OP_REMOVE: return s + "(idx=" + idx_str(o.a) + ")";
-        case OP_STORE: return s + "(idx=" + idx_str(o.a) + ",block=" + std::to_string(o.b) + (o.c ? ",copy-callback)" : ")");
+        case OP_STORE: return s + "(idx=" + idx_str(o.a) + ",block=" + std::to_string(o.b) + (o.c >= 2 ? ",copy-callback refusing element " + std::to_string(o.c - 2) + ")" : o.c ? ",copy-callback)" : ")");
         case OP_ERASE: return s + "(idx=" + idx_str(o.a) + ",cnt=" + idx_str(o.b) + (o.c ? ",dtor)" : ")");
         case OP_SETN: return s + "(" + std::to_string(o.a) + (o.b ? ",dtor)" : ")");
         case OP_SETM: case OP_SETZ: return s + "(" + std::to_string(o.a) + ")";
@@ -366,6 +381,35 @@ struct Harness
                 fill_elem(blk + i * siz, b0s[i], siz);
             }
             size_t at = A(o.a) < num ? A(o.a) : num;
+            if (o.c >= 2)
+            {
+                // the copy callback refuses element number o.c - 2 of the block.  What the slots of refused (or not attempted) elements hold,
+                // and whether the count includes them, is not specified; what is: no element that was in the container is lost or
+                // reordered, the new slots form one gap at the insertion point, and the count stays within the capacity
+                std::string old((const char *)L.data(), num * siz);
+                g_copy_calls = 0;
+                g_copy_fail_at = (int)o.c - 2;
+                (void)F(store)(c, A(o.a), blk, n, copy_elem_failing);
+                c = L.c;
+                outcome = "copy-refused";
+#if defined(SEQ_BUF)
+                if (num + n > c->mem_) { if (c->num_ != num || memcmp(L.data(), old.data(), old.size()) != 0) { ck.fail("buffer-overfill", "a store that does not fit changed the buffer"); return; } break; }
+#endif
+                size_t now = c->num_;
+                if (now > c->mem_) { ck.fail("count-exceeds-capacity", "num " + std::to_string(now) + " > mem " + std::to_string(c->mem_) + " after a store whose copy callback refused an element"); return; }
+                if (now < num || now > num + n) { ck.fail("store-copy-refused", "a store of " + std::to_string(n) + " element(s) whose copy callback refused one left " + std::to_string(now) + " elements, there were " + std::to_string(num)); return; }
+                size_t k = now - num;
+                const char *d = (const char *)L.data();
+                if (memcmp(d, old.data(), at * siz) != 0 || memcmp(d + (at + k) * siz, old.data() + at * siz, (num - at) * siz) != 0)
+                {
+                    ck.fail("store-copy-refused", "a store whose copy callback refused an element lost or moved elements that were in the container (" + std::to_string(num) + " before, " + std::to_string(now) + " after, insertion point " + std::to_string(at) + ")");
+                    return;
+                }
+                // the client completes the gap, so that the exploration continues from a specified state
+                for (size_t i = 0; i < k; ++i) { fill_elem(L.data() + (at + i) * siz, b0s[i], siz); }
+                m.insert(m.begin() + at, b0s, b0s + k);
+                break;
+            }
             int rc = F(store)(c, A(o.a), blk, n, o.c ? copy_elem : nullptr);
             c = L.c;
 #if defined(SEQ_BUF)
@@ -522,8 +566,11 @@ struct Harness
             unsigned char b0 = fresh_b0(m, key);
             unsigned char probe[16];
             fill_elem(probe, b0, siz);
+            g_key_ptr = probe; g_key_side = 2; g_key_side_bad = false;
             void *p = F(push_sort)(c, probe, cmp_key);
+            g_key_side = 0;
             c = L.c;
+            if (g_key_side_bad) { ck.fail("comparator-arguments", "push_sort called the comparator without the key on the right"); return; }
             if (!fits1)
             {
                 outcome = "refused-full";
@@ -551,7 +598,10 @@ struct Harness
             if (!is_sorted_model(m, 0, num)) { outcome = "skipped-unsorted"; break; }
             unsigned char probe[16];
             fill_elem(probe, (unsigned char)(o.a << 4), siz);
+            g_key_ptr = probe; g_key_side = 1; g_key_side_bad = false;
             void *p = F(search)(c, probe, cmp_key);
+            g_key_side = 0;
+            if (g_key_side_bad) { ck.fail("comparator-arguments", "search called the comparator without the searched object on the left"); return; }
             bool present = false;
             for (unsigned char b : m) { if ((b >> 4) == o.a) { present = true; } }
             outcome = present ? "found" : "absent";
@@ -815,6 +865,7 @@ struct Harness
             if (num + b > (size_t)N + 1) { continue; }
             for (int i = 0; i < 4; ++i) { for (int cp = 0; cp < 2; ++cp) { add(OP_STORE, sidx[i], b, cp); } }
             if (b) { add(OP_STORE, IHALF, b, 0); add(OP_STORE, IWRAP0, b, 0); add(OP_STORE, IWRAP1, b, 1); }
+            if (b) { for (int i = 0; i < 3; ++i) { for (int f = 0; f < b; ++f) { add(OP_STORE, sidx[i], b, 2 + f); } } } // the copy callback refuses element f of the block
         }
         {
             std::vector<long> idxs, cnts = {0, 1, 2, (long)num, SMAX};
